@@ -1,0 +1,15 @@
+//go:build verif
+
+// Contracts for package hash, checked by /verif/govc (see /verif/DESIGN.md).
+// This file contains only comments: it adds no code to any build.
+
+package hash
+
+//@ func (Hash).Equal
+//@   requires len(hash) == 20 && len(h) == 20
+//@   alloc    0
+//@   ensures  [spec] $r0 == (forall k int :: 0 <= k && k < 20 ==> hash[k] == h[k])
+//@   loop 1
+//@     invariant 0 <= i && i <= 20
+//@     invariant forall k int :: 0 <= k && k < i ==> hash[k] == h[k]
+//@   props    C01 C12
